@@ -18,6 +18,7 @@ import (
 	log "github.com/sirupsen/logrus"
 
 	"github.com/dtn7/dtn7-go/pkg/bpv7"
+	"github.com/dtn7/dtn7-go/pkg/cla"
 	"github.com/dtn7/dtn7-go/pkg/cla/tcpclv4/internal/msgs"
 )
 
@@ -165,6 +166,126 @@ func TestVerifC11Client(t *testing.T) {
 			f.Write(append(out, '\n'))
 			n++
 		}
+	}
+	vhStat("sessions", n)
+	vhDone()
+}
+
+// The other direction: the scripted peer sends three bundles one after the other in one session; what the client hands up is kept
+// (as the Core would keep it while it works on it) and compared with what was sent only after all of them have arrived.
+func vcSendingPeer(ln net.Listener, bundles [][]byte, done chan<- string) {
+	conn, err := ln.Accept()
+	if err != nil {
+		done <- "accept: " + err.Error()
+		return
+	}
+	defer conn.Close()
+	_ = conn.SetDeadline(time.Now().Add(20 * time.Second))
+	r := bufio.NewReader(conn)
+	w := bufio.NewWriter(conn)
+	send := func(m msgs.Message) error {
+		if err := m.Marshal(w); err != nil {
+			return err
+		}
+		return w.Flush()
+	}
+	var ch msgs.ContactHeader
+	if err := ch.Unmarshal(r); err != nil {
+		done <- "contact header: " + err.Error()
+		return
+	}
+	_ = send(msgs.NewContactHeader(0))
+	if _, err := msgs.ReadMessage(r); err != nil {
+		done <- "sess_init: " + err.Error()
+		return
+	}
+	_ = send(msgs.NewSessionInitMessage(0, 1<<20, 1<<30, "dtn://peer/"))
+	for i, enc := range bundles {
+		if err := send(msgs.NewDataTransmissionMessage(msgs.SegmentStart|msgs.SegmentEnd, uint64(i+1), enc)); err != nil {
+			done <- err.Error()
+			return
+		}
+		for {
+			m, err := msgs.ReadMessage(r)
+			if err != nil {
+				done <- "waiting for the acknowledgement: " + err.Error()
+				return
+			}
+			if _, ok := m.(*msgs.DataAcknowledgementMessage); ok {
+				break
+			}
+		}
+	}
+	done <- ""
+	for {
+		if _, err := msgs.ReadMessage(r); err != nil {
+			return
+		}
+	}
+}
+
+func TestVerifC11ClientReceive(t *testing.T) {
+	log.SetOutput(io.Discard)
+	f, err := os.Create(os.Getenv("VERIF_REC"))
+	if err != nil {
+		t.Fatal(err)
+	}
+	defer f.Close()
+	n := 0
+	for round := 0; round < 4; round++ {
+		var encs [][]byte
+		for i := 0; i < 3; i++ {
+			b, err := bpv7.Builder().CRC(bpv7.CRC32).Source(fmt.Sprintf("dtn://peer/r%d", round)).Destination("dtn://self/").CreationTimestampNow().Lifetime("1h").
+				PayloadBlock([]byte(fmt.Sprintf("round %d bundle %d %s", round, i, bytes.Repeat([]byte{'x'}, round*100)))).Build()
+			if err != nil {
+				t.Fatal(err)
+			}
+			var enc bytes.Buffer
+			_ = b.WriteBundle(&enc)
+			encs = append(encs, enc.Bytes())
+		}
+		ln, err := net.Listen("tcp", "127.0.0.1:0")
+		if err != nil {
+			t.Fatal(err)
+		}
+		done := make(chan string, 1)
+		go vcSendingPeer(ln, encs, done)
+		cl := DialTCP(ln.Addr().String(), bpv7.MustNewEndpointID("dtn://self/"), false)
+		rec := map[string]interface{}{"t": "received", "sent": len(encs), "err": ""}
+		var handed []*bpv7.Bundle
+		if err, _ := cl.Start(); err != nil {
+			rec["err"] = "start: " + err.Error()
+		} else {
+			to := time.After(20 * time.Second)
+		collect:
+			for len(handed) < len(encs) {
+				select {
+				case cs := <-cl.Channel():
+					if cs.MessageType == cla.ReceivedBundle {
+						handed = append(handed, cs.Message.(cla.ConvergenceReceivedBundle).Bundle)
+					}
+				case <-to:
+					rec["err"] = "not all bundles were handed up"
+					break collect
+				}
+			}
+			if e := <-done; e != "" && rec["err"] == "" {
+				rec["err"] = e
+			}
+			_ = cl.Close()
+		}
+		_ = ln.Close()
+		same := []bool{}
+		for i, hb := range handed {
+			var enc bytes.Buffer
+			_ = hb.WriteBundle(&enc)
+			same = append(same, i < len(encs) && bytes.Equal(enc.Bytes(), encs[i]))
+		}
+		rec["handed"] = len(handed)
+		rec["same"] = same
+		out, _ := json.Marshal(rec)
+		f.Write(append(out, '\n'))
+		n++
 	}
 	vhStat("sessions", n)
 	vhDone()
